@@ -494,7 +494,17 @@ func (c *Ctx) BlockingOps(fn *ssa.Function, depth int) []string {
 					out = append(out, via+"call "+cn)
 				default:
 					if cal := x.Common().StaticCallee(); cal != nil && d > 0 && c.P.IsModuleFunc(cal) {
-						walk(cal, d-1, via+FuncName(cal)+": ")
+						if inlineableSites(cal) {
+							// a helper extracted after the review: its operations are the caller's (inline.go)
+							t := NewTermer(f)
+							var as []string
+							for _, a := range CallArgs(x) {
+								as = append(as, t.T(a))
+							}
+							withBinding(cal, as, x, func() { walk(cal, d-1, via) })
+						} else {
+							walk(cal, d-1, via+FuncName(cal)+": ")
+						}
 					} else if x.Common().StaticCallee() == nil && !strings.HasPrefix(cn, "builtin:") {
 						out = append(out, via+"dynamic call "+cn)
 					}
@@ -843,4 +853,36 @@ func (c *Ctx) Owners(fn *ssa.Function) []string {
 	}
 	sort.Strings(out)
 	return out
+}
+
+
+// ReviewedFuncs: the module functions whose own site lists are compared with
+// tables - all of them except helpers that did not exist at review time and
+// are analysed inline in (at least one) caller (inline.go); their effects are
+// seen, with the caller's terms and guards, in the callers' lists.
+func (c *Ctx) ReviewedFuncs() []*ssa.Function {
+	if c.reviewed != nil {
+		return c.reviewed
+	}
+	called := map[*ssa.Function]bool{}
+	for _, fn := range c.P.Funcs {
+		Instrs(fn, func(in ssa.Instruction) {
+			if ci, ok := in.(*ssa.Call); ok {
+				if g := ci.Common().StaticCallee(); g != nil {
+					called[g] = true
+				}
+			}
+		})
+	}
+	for _, fn := range c.P.Funcs {
+		top := fn
+		for top.Parent() != nil {
+			top = top.Parent()
+		}
+		if inlineableSites(top) && called[top] {
+			continue
+		}
+		c.reviewed = append(c.reviewed, fn)
+	}
+	return c.reviewed
 }
